@@ -55,17 +55,30 @@ let split_comma s = if s = "" || s = "-" then [] else String.split_on_char ',' s
 let rec dlist_of = function CwDict d -> d | _ -> DNil
 let nat_of_int n = let rec go k = if k <= 0 then O else S (go (k - 1)) in go n
 
-(* the model's table of the two fixture types: all fields / config fields relevant to the generator.
-   Passed in by the script (allf= cfgf=) so that it is an explicit input. *)
+(* the field tables of the type (all fields / config fields relevant to the generator) are passed in by the script
+   (allf= cfgf=) so that they are an explicit input. *)
 let fields a k = List.map cwb (split_comma (str a k ""))
 let imports_of a = List.map hexb (split_comma (str a "tmpl" ""))
-let version_value () = CwNum (false, digits (string_of_int !now), [])
+let version_of t = CwNum (false, digits (string_of_int t), [])
 
-let config_of a =
+(* name composers: 0 = none, 2 = Service (exactly host!name), 3 = host!name | host!service!name *)
+let nc_kind = function
+  | "Service" -> 2
+  | "Notification" | "Dependency" | "ScheduledDowntime" | "Comment" | "Downtime" -> 3
+  | _ -> 0
+let part_keys ty = if ty = "Dependency" then ("child_host_name", "child_service_name") else ("host_name", "service_name")
+
+let config_at t a =
   let ty = str a "type" "Host" in
   let attrs = if has a "attrs" then dlist_of (cw_decode (str a "attrs" "o;")) else DNil in
+  if nc_kind ty = 3 then
+    let (hk, sk) = part_keys ty in
+    cw_create_config3 (fields a "allf") (fields a "cfgf") (cwb hk) (cwb sk) (cwb ty) (hexb (str a "name" "-"))
+      (num a "ign" 0 <> 0) (imports_of a) attrs (version_of t)
+  else
   cw_create_config (fields a "allf") (fields a "cfgf") (ty = "Service") (cwb ty) (hexb (str a "name" "-"))
-    (num a "ign" 0 <> 0) (imports_of a) attrs (version_value ())
+    (num a "ign" 0 <> 0) (imports_of a) attrs (version_of t)
+let config_of a = config_at !now a
 
 let op_cw_str a = emit ("cw_str " ^ bhex (cw_emit_string (hexb (str a "s" "-"))))
 let op_cw_id a =
@@ -87,25 +100,74 @@ let track t n = if not (List.mem (t, n) !tracked) then (tracked := !tracked @ [(
 let flags_str (f : cw_flags) =
   (if f.fl_obj then (if f.fl_active then "A" else "o") else "-") ^ (if f.fl_obj then (if f.fl_runtime then "r" else "s") else "-")
   ^ (if f.fl_item then "i" else "-") ^ (if f.fl_file then "f" else "-")
+(* FNV-1a, 64 bit: the digest vdrive prints for the bytes of a file *)
+let fnv64 (s : string) =
+  let h = ref 0xcbf29ce484222325L in
+  String.iter (fun c -> h := Int64.mul (Int64.logxor !h (Int64.of_int (Char.code c))) 0x100000001b3L) s;
+  Printf.sprintf "%016Lx" !h
+let index_of x l = let rec go i = function [] -> -1 | y :: r -> if y = x then i else go (i + 1) r in go 0 l
+let tree_str () =
+  let keys = List.map (fun (t, n) -> key t n) !tracked in
+  let tr = cw_ftree_of keys !store in
+  if tr = [] then "-" else
+    String.concat "," (List.map (fun (k, c) -> Printf.sprintf "T%d:%s" (index_of k keys) (fnv64 (cws c))) tr)
 (* objects that are not (yet) tracked by the script - vdrive folds them into its "others" digest *)
 let untracked () = List.filter (fun o -> not (List.exists (fun (t, n) -> key t n = o.co_key) !tracked)) (!store).cs_objs
 let others_base = ref []
 let store_line () =
   let b = Buffer.create 80 in
   List.iter (fun (t, n) -> Buffer.add_string b (Printf.sprintf " %s:%s=%s" t (hex_enc n) (flags_str (cw_flags_of !store (key t n))))) !tracked;
-  Buffer.add_string b (Printf.sprintf " nobj=%d nfiles=%d g=same others=same" (List.length (!store).cs_objs) (List.length (!store).cs_files));
+  Buffer.add_string b (Printf.sprintf " nobj=%d nfiles=%d files=%s g=same others=same" (List.length (!store).cs_objs) (List.length (!store).cs_files) (tree_str ()));
   let r = Buffer.contents b in
   if untracked () = !others_base then r else String.concat "others=CHANGED" (Str.split_delim (Str.regexp_string "others=same") r)
 let () = track_hook := (fun () -> others_base := untracked ())
 let split_bang n = match String.index_opt n '!' with Some i -> (String.sub n 0 i, String.sub n (i + 1) (String.length n - i - 1)) | None -> ("", n)
 let no_path = CwStr (cwb "<no-such-path>")
 
+(* the objects a request refers to (DependencyGraph edges: every name(T) / array(name(T)) field, and the parts of a
+   composed name): from the type, the requested name and the top-level attributes.  [name-part references, attribute references] *)
+let ref_table = function
+  | "Host" -> [("check_command", "CheckCommand"); ("event_command", "EventCommand"); ("check_period", "TimePeriod"); ("groups", "HostGroup")]
+  | "Service" -> [("check_command", "CheckCommand"); ("event_command", "EventCommand"); ("check_period", "TimePeriod"); ("groups", "ServiceGroup")]
+  | "User" -> [("groups", "UserGroup"); ("period", "TimePeriod")]
+  | "HostGroup" -> [("groups", "HostGroup")]
+  | "ServiceGroup" -> [("groups", "ServiceGroup")]
+  | "UserGroup" -> [("groups", "UserGroup")]
+  | "Notification" -> [("command", "NotificationCommand"); ("users", "User"); ("user_groups", "UserGroup"); ("period", "TimePeriod")]
+  | "Dependency" -> [("period", "TimePeriod")]
+  | _ -> []
+let rec strings_of = function
+  | CwStr s -> [cws s]
+  | CwArr l -> let rec go = function VNil -> [] | VCons (v, r) -> strings_of v @ go r in go l
+  | _ -> []
+let refs_of ty name (attrs : cw_dlist) : (string * string) list * (string * string) list =
+  let parts = String.split_on_char '!' name in
+  let by_name = match nc_kind ty, parts with
+    | 2, h :: _ :: _ -> [("Host", h)]
+    | 3, [h; _] -> [("Host", h)]
+    | 3, h :: sv :: _ :: _ -> if sv = "" then [("Host", h)] else [("Host", h); ("Service", h ^ "!" ^ sv)]
+    | _ -> [] in
+  let get k = match cw_dget (cwb k) attrs with Some (CwStr s) -> Some (cws s) | _ -> None in
+  let parent = if ty <> "Dependency" then [] else
+      match get "parent_host_name", get "parent_service_name" with
+      | Some ph, Some ps when ps <> "" -> [("Host", ph); ("Service", ph ^ "!" ^ ps)]
+      | Some ph, _ -> [("Host", ph)]
+      | None, _ -> [] in
+  let by_attr = List.concat_map (fun (k, t) -> match cw_dget (cwb k) attrs with Some v -> List.map (fun n -> (t, n)) (strings_of v) | None -> []) (ref_table ty) in
+  (by_name @ parent, List.filter (fun (_, n) -> n <> "") by_attr)
+
 let op_cw_create a =
   let ty = str a "type" "Host" and name = hex_dec (str a "name" "-") in
   track ty name;
-  let nc = (ty = "Service") in
-  let supplied = if has a "attrs" then Some (dlist_of (cw_decode (str a "attrs" "o;"))) else None in
-  let item = match config_of a with None -> None | Some cfg -> cw_parse_text cfg in
+  let kind = nc_kind ty in
+  let nc = kind <> 0 in
+  let attrs0 = if has a "attrs" then dlist_of (cw_decode (str a "attrs" "o;")) else DNil in
+  let supplied = if has a "attrs" then Some attrs0 else None in
+  let cfg = config_of a in
+  let item = match cfg with None -> None | Some c -> cw_parse_text c in
+  let (must_refs, attr_refs) = refs_of ty name (cw_dcopy attrs0 DNil) in
+  (* a reference to a fixture object of the harness (never tracked) is not part of the model's store *)
+  let deps = List.map (fun (t, n) -> key t n) (must_refs @ List.filter (fun r -> List.mem r !tracked) attr_refs) in
   let outcome, obj =
     match item with
     | None -> (CwoCompileErr, DNil)
@@ -117,11 +179,18 @@ let op_cw_create a =
        | "commit" -> (CwoCommitErr, obj)
        | "eval" -> (CwoEvalErr, obj)
        | _ ->
-         if nc then
+         if kind = 2 then
            let host = match cw_dget (cwb "host_name") obj with Some (CwStr h) -> h | _ -> [] in
-           (CwoOk (host @ [n_of_int 33] @ it.cwi_name, [ (cwb "Host", host) ]), obj)
-         else (CwoOk (it.cwi_name, []), obj)) in
-  let (st', res) = if item = None && config_of a = None then (!store, CwrFail) else cw_create !store (cwb ty) (cwb name) nc outcome in
+           (CwoOk (host @ [n_of_int 33] @ it.cwi_name, deps), obj)
+         else if kind = 3 then
+           let (hk, sk) = part_keys ty in
+           (match cw_effective_name3 (cwb hk) (cwb sk) it.cwi_name obj with
+            | Some eff -> (CwoOk (eff, deps), obj)
+            | None -> (CwoCommitErr, obj))
+         else (CwoOk (it.cwi_name, deps), obj)) in
+  let (st', res) = match cfg with
+    | None -> (!store, CwrFail)                  (* CreateObjectConfig throws: nothing was written *)
+    | Some c -> cw_create !store (cwb ty) (cwb name) nc c outcome in
   store := st';
   let b = Buffer.create 80 in
   Buffer.add_string b ("cw_create res=" ^ (match res with CwrOk -> "ok" | _ -> "fail"));
@@ -135,7 +204,7 @@ let op_cw_create a =
          bhex0 k ^ ":" ^ cw_enc v ^ go r in
      Buffer.add_string b (" attrs=o" ^ go (cw_dcopy sup DNil) ^ ";")
    | _ -> ());
-  if res = CwrOk && exists then
+  if res = CwrOk && exists && List.mem (cwb "vars") (fields a "allf") then
     Buffer.add_string b (" vars=" ^ (match cw_dget (cwb "vars") obj with Some v -> cw_enc v | None -> "n"));
   Buffer.add_string b (store_line ());
   emit (Buffer.contents b)
@@ -145,10 +214,13 @@ let op_cw_static a =
   track ty name;
   let k = key ty name in
   let exists = (cw_flags_of !store k).fl_obj in
-  let host_ok, deps =
-    if ty = "Service" then let (h, _) = split_bang name in ((cw_flags_of !store (key "Host" h)).fl_obj, [key "Host" h]) else (true, []) in
-  if exists || not host_ok then emit ("cw_static res=fail" ^ store_line ())
-  else begin store := cw_add_static !store k (ty = "Service") deps; emit ("cw_static res=ok" ^ store_line ()) end
+  let attrs = if ty = "Dependency" then
+      DCons (cwb "parent_host_name", CwStr (cwb (if has a "parent" then hex_dec (str a "parent" "-") else fst (split_bang name))), DNil) else DNil in
+  let (must_refs, _) = refs_of ty name attrs in
+  let deps = List.map (fun (t, n) -> key t n) must_refs in
+  let deps_ok = List.for_all (fun d -> (cw_flags_of !store d).fl_obj) deps in
+  if exists || not deps_ok then emit ("cw_static res=fail" ^ store_line ())
+  else begin store := cw_add_static !store k (nc_kind ty <> 0) deps; emit ("cw_static res=ok" ^ store_line ()) end
 
 let op_cw_delete a =
   let ty = str a "type" "Host" and name = hex_dec (str a "name" "-") in
@@ -159,23 +231,50 @@ let op_cw_delete a =
 
 let op_cw_global _ = emit "cw_global ok"
 
+(* what a restart finds: every run-time object comes back from its file, nothing else appears, the load succeeds
+   (every reference of a run-time object resolves) *)
+let op_cw_restart _ =
+  let st = !store in
+  if List.exists (fun o -> not o.co_runtime) st.cs_objs then emit "cw_restart res=skipped" else
+  let rt = List.filter (fun o -> o.co_runtime) st.cs_objs in
+  let has_file k = List.exists (fun (k', _) -> k' = k) st.cs_files in
+  let missing = List.length (List.filter (fun o -> not (has_file o.co_key)) rt) in
+  let extra = List.length (List.filter (fun (k, _) -> not (List.exists (fun o -> o.co_key = k) rt)) st.cs_files) in
+  let dangling = List.exists (fun (k, _) -> match cw_find k st with
+      | Some o -> List.exists (fun d -> cw_find d st = None) o.co_deps | None -> false) st.cs_files in
+  emit (Printf.sprintf "cw_restart res=%s missing=%d extra=%d changed=0 nfiles=%d" (if dangling then "fail" else "ok") missing extra (List.length st.cs_files))
+
 (* ---------------- oracle: the statement of C17 evaluated on the IMPLEMENTATION's observations ------- *)
 let parse_flags s =
   { fl_obj = s.[0] <> '-'; fl_active = s.[0] = 'A'; fl_runtime = s.[1] = 'r'; fl_item = s.[2] = 'i'; fl_file = s.[3] = 'f' }
 (* tracked entries of an observation line: (type, hexname, flags) *)
+let is_type_name t = String.length t > 0 && t.[0] >= 'A' && t.[0] <= 'Z' && String.for_all (fun c -> (c >= 'a' && c <= 'z') || (c >= 'A' && c <= 'Z')) t
 let entries toks =
   List.filter_map (fun t ->
     match String.index_opt t ':', String.index_opt t '=' with
-    | Some i, Some j when j > i && (String.length t - j - 1) = 4 && (String.sub t 0 i = "Host" || String.sub t 0 i = "Service") ->
+    | Some i, Some j when j > i && (String.length t - j - 1) = 4 && is_type_name (String.sub t 0 i) ->
       Some (String.sub t 0 i, String.sub t (i + 1) (j - i - 1), parse_flags (String.sub t (j + 1) 4))
     | _ -> None) toks
 let geti toks k = match tok_val toks k with Some v -> (try int_of_string v with _ -> -1) | None -> -1
 let starts l p = String.length l >= String.length p && String.sub l 0 (String.length p) = p
+(* files=T0:<digest>,?<hexpath>:<digest> -> file tree keyed by the tracked (type, name) / by ("?", path) *)
+let parse_tree (trk : (string * string) list) (s : string) : (cw_key * n list) list =
+  if s = "-" || s = "" then [] else
+    List.map (fun e ->
+      let (id, dg) = match String.index_opt e ':' with Some i -> (String.sub e 0 i, String.sub e (i + 1) (String.length e - i - 1)) | None -> (e, "") in
+      let k = if String.length id > 1 && id.[0] = 'T' then
+          (match int_of_string_opt (String.sub id 1 (String.length id - 1)) with
+           | Some i when i < List.length trk -> let (t, n) = List.nth trk i in key t n
+           | _ -> (cwb "?", cwb id))
+        else (cwb "?", cwb id) in
+      (k, cwb dg)) (String.split_on_char ',' s)
 
 let code_label c = match c with
   | 0 -> "ok" | 1 -> "number-precision" | 2 -> "nul-truncation" | 3 -> "structure"
   | 13 -> "valid-create-refused" | 10 -> "failure-not-clean" | 11 -> "success-incomplete" | 12 -> "globals-or-others-changed"
+  | 14 -> "failed-create-changed-files" | 15 -> "create-touched-other-files" | 16 -> "file-content-differs"
   | 20 -> "failed-delete-changed-state" | 21 -> "delete-left-remains" | 22 -> "non-runtime-deleted" | 23 -> "delete-touched-others"
+  | 24 -> "delete-files-wrong" | 25 -> "cascade-closure-wrong" | 30 -> "restart-differs"
   | _ -> "unknown"
 
 let stmt_code exp got =
@@ -190,7 +289,9 @@ let oracle_c17_case script trace =
   let fail li op c = if !err = None && c <> 0 then err := Some (Printf.sprintf "step=%d op=%s code=%d %s" li op c (code_label c)) in
   let crash li l = if !err = None then err := Some (Printf.sprintf "step=%d crash %s" li l) in
   let tr = ref trace in
-  let prev_entries = ref [] and prev_nobj = ref 0 and prev_nfiles = ref 0 in
+  let prev_entries = ref [] and prev_nobj = ref 0 and prev_nfiles = ref 0 and prev_tree = ref [] in
+  let trk : (string * string) list ref = ref [] in
+  let deps_tbl : ((string * string) * cw_key list) list ref = ref [] in
   let nowv = ref 0 in
   List.iteri (fun li line ->
     match parse_line line with
@@ -221,11 +322,19 @@ let oracle_c17_case script trace =
               let ty = str a "type" "Host" in
               let full = hexb (str a "name" "-") in
               let attrs = if has a "attrs" then dlist_of (cw_decode (str a "attrs" "o;")) else DNil in
-              match cw_parse_text (hexb second), cw_name_parts (ty = "Service") full with
+              let version = CwNum (false, digits (string_of_int !nowv), []) in
+              let expected =
+                if nc_kind ty = 3 then
+                  (match cw_name_parts3 full with
+                   | Some ((name, h), sv) -> let (hk, sk) = part_keys ty in Some (name, cw_all_attrs3 (cwb hk) (cwb sk) h sv attrs version)
+                   | None -> None)
+                else (match cw_name_parts (ty = "Service") full with
+                    | Some (name, host) -> Some (name, cw_all_attrs host attrs version)
+                    | None -> None) in
+              match cw_parse_text (hexb second), expected with
               | None, _ -> ()        (* does not compile: nothing is created *)
               | Some _, None -> fail li op 3
-              | Some it, Some (name, host) ->
-                let all = cw_all_attrs host attrs (CwNum (false, digits (string_of_int !nowv), [])) in
+              | Some it, Some (name, all) ->
                 let rec top = function DNil -> [] | DCons (k, v, r) ->
                   let ks = cw_split (n_of_int 46) k [] in CwAssign (List.hd ks, List.tl ks, v) :: top r in
                 let exp_body = List.map (fun s -> CwImport s) (imports_of a) @ top all in
@@ -233,35 +342,53 @@ let oracle_c17_case script trace =
                 else if List.length exp_body <> List.length it.cwi_body then fail li op 3
                 else List.iter2 (fun e g -> fail li op (stmt_code e g)) exp_body it.cwi_body
             end
+          | "cw_restart" ->
+            (* the package directory, loaded the way a restart loads it, yields exactly the live run-time objects *)
+            if tok_val t "res" = Some "skipped" then () else
+            if not (tok_val t "res" = Some "ok" && tok_val t "missing" = Some "0" && tok_val t "extra" = Some "0" && tok_val t "changed" = Some "0"
+                    && geti t "nfiles" = !prev_nfiles) then fail li op 30
           | "cw_create" | "cw_delete" | "cw_static" ->
             let ty = str a "type" "Host" and hn = str a "name" "-" in
+            let name = hex_dec hn in
+            if not (List.mem (ty, name) !trk) then trk := !trk @ [(ty, name)];
             let es = entries t in
             let nobj = geti t "nobj" and nfiles = geti t "nfiles" in
+            let tree = parse_tree !trk (match tok_val t "files" with Some f -> f | None -> "-") in
             let find l = try let (_, _, f) = List.find (fun (t', n', _) -> t' = ty && n' = hn) l in f with Not_found -> cw_flags_none in
             let pre = find !prev_entries and post = find es in
             let gsame = tok_val t "g" = Some "same" and osame = tok_val t "others" = Some "same" in
-            let name = hex_dec hn in
-            let is_dep (t', n', _) = ty = "Host" && t' = "Service" && starts (hex_dec n') (name ^ "!") in
-            let changed (t', n', f) =
-              let old = try let (_, _, f0) = List.find (fun (a', b', _) -> a' = t' && b' = n') !prev_entries in f0 with Not_found -> cw_flags_none in
-              not (cw_flags_eqb old f) in
+            let old_of (t', n', _) = try let (_, _, f0) = List.find (fun (a', b', _) -> a' = t' && b' = n') !prev_entries in f0 with Not_found -> cw_flags_none in
+            let changed ((_, _, f) as e) = not (cw_flags_eqb (old_of e) f) in
             let others = List.filter (fun (t', n', _) -> not (t' = ty && n' = hn)) es in
-            let nondep_same = not (List.exists changed (List.filter (fun e -> not (is_dep e)) others)) in
-            let dep_changed = List.exists changed (List.filter is_dep others) in
             let res = match tok_val t "res" with Some r -> r | None -> "?" in
+            let attrs = if has a "attrs" then dlist_of (cw_decode (str a "attrs" "o;")) else DNil in
             (if op = "cw_create" then begin
+               let content = match config_at !nowv a with Some c -> Some (cwb (fnv64 (cws c))) | None -> None in
                let b = { cb_ok = (res = "ok"); cb_pre = pre; cb_post = post;
                          cb_nobj_pre = n_of_int !prev_nobj; cb_nobj_post = n_of_int nobj;
                          cb_nfiles_pre = n_of_int !prev_nfiles; cb_nfiles_post = n_of_int nfiles;
-                         cb_globals_same = gsame; cb_others_same = osame; cb_rest_same = nondep_same && not dep_changed } in
-               fail li op (int_of_n (cw_orc_create (ty = "Service") b));
+                         cb_globals_same = gsame; cb_others_same = osame; cb_rest_same = not (List.exists changed others);
+                         cb_key = key ty name; cb_tree_pre = !prev_tree; cb_tree_post = tree; cb_content = content } in
+               fail li op (int_of_n (cw_orc_create (nc_kind ty <> 0) b));
                (* a request the script marks as valid (fresh or freed name, valid attributes) must be created *)
                if str a "must" "" = "ok" && res <> "ok" then fail li op 13;
+               if res = "ok" then begin
+                 let (r1, r2) = refs_of ty name (cw_dcopy attrs DNil) in
+                 deps_tbl := ((ty, name), List.map (fun (t', n') -> key t' n') (r1 @ r2)) :: List.remove_assoc (ty, name) !deps_tbl
+               end;
                if res = "ok" && has a "attrs" then begin
-                 let sup0 = cw_dcopy (dlist_of (cw_decode (str a "attrs" "o;"))) DNil in
+                 let sup0 = cw_dcopy attrs DNil in
                  (* the parts of a composed name are authoritative: a supplied name-part attribute reads back as the part *)
-                 let sup = match cw_name_parts (ty = "Service") (cwb name) with
-                   | Some (_, Some h) when cw_dget (cwb "host_name") sup0 <> None -> cw_dset (cwb "host_name") (CwStr h) sup0
+                 let sup = match nc_kind ty with
+                   | 2 -> (match cw_name_parts true (cwb name) with
+                       | Some (_, Some h) when cw_dget (cwb "host_name") sup0 <> None -> cw_dset (cwb "host_name") (CwStr h) sup0
+                       | _ -> sup0)
+                   | 3 -> (match cw_name_parts3 (cwb name) with
+                       | Some ((_, h), sv) ->
+                         let (hk, sk) = part_keys ty in
+                         let s1 = if cw_dget (cwb hk) sup0 <> None then cw_dset (cwb hk) (CwStr h) sup0 else sup0 in
+                         (match sv with Some x when cw_dget (cwb sk) s1 <> None -> cw_dset (cwb sk) (CwStr x) s1 | _ -> s1)
+                       | None -> sup0)
                    | _ -> sup0 in
                  (match tok_val t "attrs" with
                   | Some g -> fail li op (int_of_n (cw_orc_attrs sup (dlist_of (cw_decode g))))
@@ -275,17 +402,27 @@ let oracle_c17_case script trace =
                   | None -> ())
                end
              end else if op = "cw_delete" then begin
+               let ents = List.map (fun ((t', n', f) as e) ->
+                   let nm = hex_dec n' in
+                   { de_key = key t' nm; de_pre = old_of e; de_post = f;
+                     de_deps = (try List.assoc (t', nm) !deps_tbl with Not_found -> []) }) es in
                let b = { db_res = (match res with "ok" -> CwrOk | "fail" -> CwrFail | _ -> CwrNoSuch);
-                         db_cascade = (num a "cascade" 0 <> 0); db_pre = pre; db_post = post;
-                         db_nobj_pre = n_of_int !prev_nobj; db_nobj_post = n_of_int nobj;
-                         db_nfiles_pre = n_of_int !prev_nfiles; db_nfiles_post = n_of_int nfiles;
+                         db_cascade = (num a "cascade" 0 <> 0); db_key = key ty name; db_ents = ents;
                          db_globals_same = gsame; db_others_same = osame;
-                         db_nondep_same = nondep_same; db_dep_changed = dep_changed } in
+                         db_tree_pre = !prev_tree; db_tree_post = tree } in
                fail li op (int_of_n (cw_orc_delete b))
              end else begin
-               if not (gsame && osame) then fail li op 12
+               if not (gsame && osame) then fail li op 12;
+               (* loading ordinary configuration never touches the package *)
+               if not (cw_ftree_eqb !prev_tree tree) then fail li op 14;
+               if res = "ok" then begin
+                 let sattrs = if ty = "Dependency" then
+                     DCons (cwb "parent_host_name", CwStr (cwb (if has a "parent" then hex_dec (str a "parent" "-") else fst (split_bang name))), DNil) else DNil in
+                 let (r1, _) = refs_of ty name sattrs in
+                 deps_tbl := ((ty, name), List.map (fun (t', n') -> key t' n') r1) :: List.remove_assoc (ty, name) !deps_tbl
+               end
              end);
-            prev_entries := es; prev_nobj := nobj; prev_nfiles := nfiles
+            prev_entries := es; prev_nobj := nobj; prev_nfiles := nfiles; prev_tree := tree
           | _ -> ())
          end)
     | _ -> ()) script;
@@ -302,5 +439,6 @@ let () =
   register_op "cw_static" op_cw_static;
   register_op "cw_delete" op_cw_delete;
   register_op "cw_global" op_cw_global;
+  register_op "cw_restart" op_cw_restart;
   register_case_end (fun () -> store := cw_store0; tracked := []; others_base := []);
   register_oracle "C17" oracle_c17_case
